@@ -11,13 +11,14 @@ from .c06 import valid_route
 
 ID = "C08"
 RULE = ("seeded small VRPTWs with integer data (1..3 customers, planted feasible route partitions and random ones, costs of either sign, capacity "
-        "not binding), handed over as a finished VRPTW or (35%) assembled through the path-based object's own add_node/add_arc/set_depot with the depot named late and routes offered by name; from one graph: path-based with ALL valid routes enumerated, arc-based on the complete integer grid, sequence-based "
+        "not binding, depots that open at 0 or late), handed over as a finished VRPTW or (35%) assembled through the path-based object's own add_node/add_arc/set_depot with the depot named late and routes offered by name; from one graph: path-based with EVERY depot-to-depot sequence of distinct customers offered (the object decides which are valid), arc-based on the complete integer grid, sequence-based "
         "non-strict and strict with V = #customers and L = #customers + 2; constrained optima by exhaustive search over 2^n vectors (n <= 18) and "
         "minima of the default-penalty QUBOs, against an independent route-partition optimiser (subset DP over enumerated valid routes); "
         "non-trivial = reference problem feasible with >= 2 customers; distinct = distinct instance")
 ASSUMPTIONS = [
     "capacity not binding (capacity and initial load large, demands 0)",
-    "arc-based = reference needs the depot window to open exactly at 0 (the reference clock starts at 0; refuted in Lean otherwise), no depot self-arc, positive customer-to-customer times",
+    "the route clock starts when the depot's window opens (every formulation and the reference; the path-based formulation started at 0 until fix bf32002); 30% of the instances have a depot that opens late",
+    "no depot self-arc; customer-to-customer times >= 1 in generated instances: a zero-time cycle between customers is admitted by the arc-based model as a subtour (listed known finding, witness known/c08_zero_time_cycle.json)",
     "complete grid = all integers up to the largest finite window end + total travel (all data are integers, so every attainable service time is on it)",
     "sequence-based comparison uses instances with <= 2 customers so that 2^n enumeration stays exact (n <= 18)",
 ]
